@@ -455,6 +455,7 @@ class Interp:
         self.loops: list[Loop] = []
         self.stack: list[str] = []
         self.sinks: list[Sink] = []
+        self.other_sinks: list = []  # constructions of other classes outside the scan package from two collections
         self.notes: list[str] = []
         self.atom_taint: dict[str, frozenset] = {}
         self.predicates: dict[str, FuncInfo] = {}  # collapsed pure predicates: atom prefix -> function
@@ -1311,6 +1312,11 @@ class Interp:
             return self.free(f"NONEMPTY[{v.label or key(v)}]")
         if isinstance(v, TupleV):
             return TRUE if v.items else FALSE
+        if isinstance(v, Opaque) and "EXT" in v.taint:
+            # an object with __bool__ / __len__ built from the patterns: true when there are patterns
+            for ci in self.repo.classes.values():
+                if ci.name == v.cls and any(self.repo.lookup_method(ci, m) is not None for m in ("__bool__", "__len__")):
+                    return atom("HAS")
         return TRUE
 
     def isnone(self, v: V) -> Formula:
@@ -1799,6 +1805,9 @@ class Interp:
             return Opaque(ci.name, frozenset())
         if not self.transparent_class(ci):
             t = self._taints(args, kwargs)
+            colls = [a for a in [*args, *kwargs.values()] if isinstance(a, (Coll, AltV)) or (isinstance(a, Unknown) and a.taint & {"PARSED", "CONVERTED"})]
+            if len(colls) >= 2 and not ci.module.name.startswith(SCAN_PKG):
+                self.other_sinks.append((ci, [self._freeze(a) for a in colls], self.guard(), fr.fi, e))
             return Opaque(ci.name, t, f"{ci.name}({','.join(key(a) for a in args)})")
         obj = Obj(ci)
         init = self.repo.lookup_method(ci, "__init__")
